@@ -129,7 +129,7 @@ def synth_preload(rng, n):
 
 def gen_inputs(tier, rng):
     thorough = tier == "thorough"
-    n_inv = 700 if thorough else 64
+    n_inv = 600 if thorough else 40
     n_util = 60 if thorough else 6
     maxpix = 22 if thorough else 14
     for i in range(n_inv):
@@ -259,14 +259,14 @@ def run_inv(aa, inp):
         eps = frac(settings.no_regularization_add_to_curvature_diag_value)
         B = np.array(inv.operated_mapping_matrix); D = np.array(inv.data_vector); F = np.array(inv.curvature_matrix)
         P = B.shape[1]
-        terms.append(f"(KInv {cmask(m)} {cqm(K)} {cqv(d)} {cqv(s)} {cobjs} {cbool(use)} {cq(eps)} {cq(tol)} "
-                     f"{cbool(is_wt)} {cqm(fm(B))} {cqv(fv(D))} {cqm(fm(F))})")
+        terms.append(f"(KInv {cmask(m)} {cqm(K)} {cqv(d)} {cqv(s)} {cobjs} {cbool(is_wt)} {cq(eps)} {cq(tol)} "
+                     f"{cqm(fm(B))} {cqv(fv(D))} {cqm(fm(F))})")
         # mapped_reconstructed_data for an injected integer reconstruction (cached_property slot)
         r = [Fraction(rrng.randint(-4, 4)) for _ in range(P)] if use is False else res[False]["r"]
         inv2 = aa.Inversion(dataset=dataset, linear_obj_list=los, settings=settings)
         inv2.__dict__["reconstruction"] = flv(r)
         mapped = np.array(inv2.mapped_reconstructed_data)
-        terms.append(f"(KMapped {cmask(m)} {cqm(K)} {cnat(n)} {cobjs} {cbool(use)} {cq(tol)} {cqv(r)} {cqv(fv(mapped))})")
+        terms.append(f"(KMapped {cmask(m)} {cqm(K)} {cnat(n)} {cobjs} {cbool(is_wt)} {cq(tol)} {cqv(r)} {cqv(fv(mapped))})")
         # the solved reconstruction (C05's), only for the comparison of the two formalisms
         rec = None
         try:
@@ -280,7 +280,13 @@ def run_inv(aa, inp):
         res[use] = dict(is_wt=is_wt, B=B, D=D, F=F, mapped=mapped, r=r, rec=rec, recmapped=None if rec is None else recmapped)
         outs[str(use)] = {"class": type(inv).__name__, "D": D.tolist(), "F": F.tolist()}
     a, b = res[False], res[True]
-    if a["is_wt"] or b["is_wt"] != has_mapper: py_ok = False; detail["factory"] = [a["is_wt"], b["is_wt"]]
+    tally("class:" + ("wtilde" if b["is_wt"] else "mapping") + "(use_w_tilde=True)")
+    if has_mapper and not b["is_wt"]:
+        # whatever the factory chose, the w-tilde class itself is compared with the mapping formalism
+        st = aa.SettingsInversion(use_w_tilde=True, use_positive_only_solver=False,
+                                  **({} if eps_in is None else {"no_regularization_add_to_curvature_diag_value": float(Fraction(eps_in))}))
+        iw = aa.InversionImagingWTilde(dataset=dataset, w_tilde=dataset.w_tilde, linear_obj_list=los, settings=st)
+        b = dict(b, D=np.array(iw.data_vector), F=np.array(iw.curvature_matrix))
     for key in ("B", "D", "F", "mapped"):
         if not close(a[key], b[key]): py_ok = False; detail["formalisms_differ"] = key
     for r_ in (a, b):
@@ -327,11 +333,15 @@ def run_util(aa, inp):
         out = iu.curvature_matrix_with_added_to_diag_from(curvature_matrix=fl(F), value=float(v), no_regularization_index_list=idx)
         return dict(base, coq=f"(KAddDiag {cqm(F)} {cq(v)} {cnl(idx)} {cqm(fm(out))})", out=np.asarray(out).tolist())
     if op == "mirror":
+        # matrices as the w-tilde assembly produces them: a symmetric matrix of which, pair by pair, one side may be blanked
+        # (on such inputs the result does not depend on the order of the conditional writes)
         P = rng.randint(1, 5); C = rmat(P, P)
-        if rng.random() < 0.5:
-            for i in range(P):
-                for j in range(i):
-                    if rng.random() < 0.6: C[i][j] = Z0
+        for i in range(P):
+            for j in range(i):
+                C[i][j] = C[j][i]
+                u = rng.random()
+                if u < 0.3: C[i][j] = Z0
+                elif u < 0.6: C[j][i] = Z0
         out = iu.curvature_matrix_mirrored_from(curvature_matrix=fl(C))
         return dict(base, coq=f"(KMirror {cqm(C)} {cqm(fm(out))})", out=np.asarray(out).tolist())
     if op == "wt":
